@@ -100,6 +100,16 @@ class Ref(object):
         out.append((p_last - self.mean_on(gs[-1][1])) / (s_last - self.tref.beat(gs[-1][0])))
         return out
 
+    def fragile_last_time(self):
+        """True iff the last matched score onset carries only zero-length notes, no matched note sounds beyond
+        it and a matched note of positive length ends exactly there: the codec's test 'last onset == last
+        offset' is then decided by float32 rounding of onset + duration."""
+        t_last, members = self.groups[-1]
+        if any(self.score[s]["dur"] > 0 for s, _ in members):
+            return False
+        ends = [self.score[s]["t"] + self.score[s]["dur"] for s, _ in self.pairs if self.score[s]["dur"] > 0]
+        return bool(ends) and max(ends) == t_last
+
     def tempo_ratio(self):
         r = 1.0
         for clamp in (False, True):
@@ -210,7 +220,10 @@ def oracle_roundtrip(spec):
         if cfg not in e[0]:
             e[0].append(cfg)
 
+    fragile = ":last-onset-has-only-grace-notes" if ref.fragile_last_time() else ""
+
     def judge(dec, sids, cfg, tag=""):
+        tag = tag + fragile
         dnotes = {}
         dup = False
         for n in dec.notes:
@@ -524,7 +537,15 @@ def k_maps_nan(spec, disc):
     return disc["detail"].get("remove_ornaments") is True and got != got
 
 
+def k_fragile(spec, disc):
+    k = disc.kind
+    if not (k.startswith("duration-not-reproduced") or k.startswith("onset-not-reproduced-up-to-a-common-shift")):
+        return False
+    return ":last-onset-has-only-grace-notes" in k and Ref(spec).fragile_last_time()
+
+
 KNOWN_ROUNDTRIP = {
+    "closing-interval-lost-to-rounding": k_fragile,
     "unknown-performance-id-raises": k_unknown_perf_id,
     "grace-note-duration-lost": k_grace,
     "durations-under-75ms-raised": k_short,
